@@ -22,10 +22,6 @@ package hmac
 //@   ensures typeis(h, *HashData) ==> n == len(unbox(h, *HashData).data)
 //@   modifies nothing
 
-//@ assume func (h Hash) IsEqual(data []byte, keyID []byte, store keystore.HmacKeyStore) (ok bool)
-//@   requires typeis(h, *HashData) ==> 1 <= len(unbox(h, *HashData).data)
-//@   modifies nothing
-
 //@ func (d *HashData) Length() (n int)
 //@   props C01 C03 C09 C14
 //@   safety
